@@ -284,3 +284,32 @@ prop("C20", ["tok_rules", "ring_marker_text", "da_resolver", "exc_dangling_ring"
      "that the scanner reaches the fault wherever it is placed (C04's undecided part)",
      floors={"TOK.ring-marker-text": 1, "DA.resolver": 37, "EXC.X1-dangling-ring": 1, "SIB.S2-ring-handlers": 3, "EXC.X2-duplicate-edge": 2, "EXC.X3-missing-fragment": 3,
              "EXC.X4-annotations": 6, "EXC.handlers": 8})
+
+
+# clauses added by the later rounds (DESIGN.md sections 11-13); appended to the statement of what is decided
+_LATER = {
+    "C01": "no read of a possibly-unbound local or never-assigned instance attribute on the resolver's paths; the hydrogen bookkeeping at bond creation (1.5 for aromatic ends, 1 otherwise, never below 0); loops that must visit every element have no early exit",
+    "C02": "the per-node graph gets an edge exactly for the bonded pairs of its own atoms; atom names are set on every all-atom path on (fine graph, coarse graph); the hydrogen inheritance runs exactly for hydrogens bonded to an atom (truth table)",
+    "C03": "helpers extracted from compatible() are interpreted too; options (legacy) are forwarded; no state survives between edges or calls",
+    "C04": "the text of a ring marker (bare digit, % + all following digits, order symbol for the next marker only, marker ending the text) by abstract execution of the scan loop on representative tails; the set of rejection sites is the confirmed one (more: undecided); the scanner's loop-carried state is the confirmed one (more: undecided); no memoised parser; the symbol after a branch is read directly behind the brace or the multiplier number",
+    "C05": "order of the copy loop (pending order updated per copy), anchor entry of a recipe is (1, attributes, 1); `is not None` for the anchor key; the scanner's loop-carried state is the confirmed one",
+    "C06": "every level is read into an empty dictionary; fragments handed out by the readers are fresh objects; options are forwarded",
+    "C07": "two-digit markers are written after the single-digit ones and the bare digit form only below 10; a new marker is chosen against the markers in use and released on closing; all traversal helpers start from the start node; a local edge-needs-symbol predicate equals the OpenSMILES rule",
+    "C08": "which layer is written as atomistic SMILES (abstract execution for three layers); fragment symbol table equals the documented one incl. ':'; a %nn marker may end a fragment text",
+    "C09": "aromatic correction before the reset of the hydrogen counts; the sampler adds hydrogens on every all-atom path and on no coarse path",
+    "C10": "nothing but the membership lists of the two atoms is added up; the merge record is a fresh local per call",
+    "C11": "no truth test on a bond order",
+    "C12": "the three constructors and __init__ agree on the documented defaults; the fragment libraries are read by key only; names are set for every coarse node's atoms",
+    "C13": "fragment symbol table equals the documented one; parse pipeline of the annotation (bind < cast < defaults); no memoised parser; the tokenizer's loop-carried state is the confirmed one",
+    "C14": "annotation values are never tested for truth; annotations are applied after the defaults on every path of the fragment readers; key-less values reach bind as positional arguments",
+    "C15": "slash marks reach the fragment reader, are written on every multi-atom path and read back under the same name; both marks of a slash are stored unconditionally; the remapping dispatch for tuple / list / scalar values (truth table); entries are read from the relabelled graph and written back",
+    "C16": "start fragment merged once into the grown graph (named or random); instance attributes assigned on every path of __init__; no early exit past the finalisation",
+    "C17": "order-suffix defaulting of all three tables (abstract execution on representative descriptors); masses computed for every fragment exactly when no table is given; mass sum starts at 0; no set iteration in the helpers of the growth step; mutable defaults are not written",
+    "C18": "positions are (x, y, z) of the atom's conformer position in both directions; the memo of weight totals must be keyed by the bead; conversion loops visit every atom and bond",
+    "C19": "position arrays and matrices are indexed by counters, node-keyed dicts by node keys; a whole-array rescaling must reach the returned dict; nothing reachable from the layout keeps state between calls; an optional parameter is dereferenced only under its not-None guard; the layout does not modify the graph",
+    "C20": "the ring scan completes a marker that ends the text; key-less annotation values reach bind as positional arguments; the tokenizer keeps ring digits in the text",
+}
+for _pid, _txt in _LATER.items():
+    _sp = PROPERTIES[_pid]
+    _sp["decided"] = _sp["decided"] + "; " + _txt
+    _sp["explanation"] = EXPL + " Decided for %s: %s. Not decided: %s." % (_pid, _sp["decided"], _sp["undecided"])
